@@ -262,9 +262,19 @@ def run(ctx) -> None:
     # handlers of _print_diff end the process non-zero
     pd = prog.function("cli._print_diff")
     pcfg = cfgs.get(pd.fq)
+    # an exception that leaves _print_diff ends the command with a traceback and a non-zero status as well - unless a caller
+    # catches it: the calls of _print_diff must not stand in a try statement whose handlers could take it
+    guarded_calls = []
+    for caller, call in ctx.interproc().callers.get(pd.fq, []):
+        ccfg = cfgs.get(caller.fq)
+        nid = ccfg.node_containing(call)
+        for hid in shapes.handlers_catching(ccfg, ["NoPatternMatch", "OSError", "Exception"]):
+            if nid in shapes.try_body_nodes(ccfg, hid) and "fallthrough" in shapes.handler_outcome(ccfg, hid)["outcomes"]:
+                guarded_calls.append(f"{caller.fq} L{call.lineno}")
     for h in shapes.handlers_catching(pcfg, ["NoPatternMatch", "OSError"]):
         oc = shapes.handler_outcome(pcfg, h)["outcomes"]
-        ctx.check("R3", oc and all(o.startswith("exit:") and o not in ("exit:0", "exit:None") for o in oc), f"_print_diff: handler at L{pcfg.nodes[h].lineno} exits non-zero",
+        ends = lambda o: (o.startswith("exit:") and o not in ("exit:0", "exit:None")) or (o == "raise" and not guarded_calls)
+        ctx.check("R3", oc and all(ends(o) for o in oc), f"_print_diff: handler at L{pcfg.nodes[h].lineno} exits non-zero (or lets the error end the command)",
                   "cli._print_diff: a failing diff does not end in a non-zero exit", f"{sorted(oc)}", loc=pd.loc(pcfg.nodes[h].ast))
 
     # ---------------------------------------------------------------- R4
